@@ -99,6 +99,27 @@ func newVMachine(t *testing.T, out *os.File) *vMachine {
 
 func (m *vMachine) emit(e vEv) { m.enc.Encode(e); m.n++ }
 
+// pending records the call of the real code that is about to be made (fixed-size side record, see vlib hang_guard):
+// if the call never returns the runner knows which one it was.
+var vPendingFile *os.File
+
+func vPending(desc string) {
+	if vPendingFile == nil {
+		p := os.Getenv("VERIF_PENDING")
+		if p == "" {
+			return
+		}
+		f, err := os.OpenFile(p, os.O_CREATE|os.O_WRONLY, 0644)
+		if err != nil {
+			return
+		}
+		vPendingFile = f
+	}
+	var rec [256]byte
+	copy(rec[:255], desc)
+	vPendingFile.WriteAt(rec[:], 0)
+}
+
 func (m *vMachine) setMap(regs []vRegion) {
 	m.info = vBuildInfo(regs)
 	multiboot.SetInfoPtr(uintptr(unsafe.Pointer(&m.info[0])))
@@ -123,6 +144,7 @@ func (m *vMachine) doInit(regs []vRegion, ks, ke uint64) string {
 				s = "panic"
 			}
 		}()
+		vPending(`{"call":"pmm.Init","case":` + strconv.Itoa(m.n) + `}`)
 		if err := Init(uintptr(ks), uintptr(ke)); err != nil {
 			if err.Message == "out of memory" {
 				return "oom"
@@ -151,6 +173,7 @@ func (m *vMachine) doAlloc() (mm.Frame, string) {
 				s = "panic"
 			}
 		}()
+		vPending(`{"call":"AllocFrame","after_event":` + strconv.Itoa(m.n) + `}`)
 		f, err := bitmapAllocator.AllocFrame()
 		if err != nil {
 			return "oom"
@@ -173,6 +196,7 @@ func (m *vMachine) doFree(f mm.Frame) string {
 				s = "panic"
 			}
 		}()
+		vPending(`{"call":"FreeFrame","frame":` + strconv.FormatUint(uint64(f), 10) + `,"after_event":` + strconv.Itoa(m.n) + `}`)
 		if err := bitmapAllocator.FreeFrame(f); err != nil {
 			return err.Message
 		}
@@ -379,6 +403,7 @@ func (m *vMachine) runHandover(regs []vRegion, ks, ke uint64, k int) {
 				s = "panic"
 			}
 		}()
+		vPending(`{"call":"hand-over (setupPoolBitmaps, reserveKernelFrames, reserveEarlyAllocatorFrames)","after_event":` + strconv.Itoa(m.n) + `}`)
 		if err := bitmapAllocator.setupPoolBitmaps(); err != nil {
 			return "oom"
 		}
@@ -410,6 +435,7 @@ func (m *vMachine) runBoot(regs []vRegion, ks, ke uint64, extra int) {
 					s = "panic"
 				}
 			}()
+			vPending(`{"call":"BootMemAllocator.AllocFrame","after_event":` + strconv.Itoa(m.n) + `}`)
 			f, err := bootMemAllocator.AllocFrame()
 			if err != nil {
 				return "oom"
